@@ -4,6 +4,7 @@ from facts import walk, short, pp
 import hirutil as H
 import labelflow as LF
 import core
+import rules.c02 as c02
 
 LEVEL = 'other'
 TECHNIQUE = ('decision-arm classification of the on<Signal> dispatch (only a uniquely resolved signal builds a callback, every other '
@@ -132,8 +133,10 @@ def run(ck):
             ck.ob('R13.2', 'classification-arms', len(builds) == 1 and n_arms == 4, L.loc(m), '%d arms, %d building a callback' % (n_arms, len(builds)))
             ck.ob('R13.2', 'overloads-pass-through-uniquify', 'uniquify_methods' in pp(m['e'], maxlen=120), L.loc(m), pp(m['e'], maxlen=60))
         # callbacks are pushed only when built
-        pushes = [c for c in H.calls_in(bp['body']) if c.get('m') == 'push' and (H.root_local(c['recv']) or {}).get('name') == 'callbacks']
-        ok = len(pushes) == 1 and any(a.get('k') == 'If' and a['c'].get('k') == 'LetCond' and any(H.is_call_to(c, 'CallbackCode::build') for c in H.calls_in(a['c']['e'])) for a in H.ancestors(bp, pushes[0]))
+        built = [a for a in walk(bp['body']) if a.get('k') == 'If' and a['c'].get('k') == 'LetCond' and any(H.is_call_to(c, 'CallbackCode::build') for c in H.calls_in(a['c']['e']))]
+        cbind = {b['hid'] for a in built for b in H.pat_bindings(a['c']['pat'])}
+        pushes = [c for c in H.calls_in(bp['body']) if c.get('m') == 'push' and c['args'] and 'CallbackCode' in (L.ty(c['args'][0]) or '')]
+        ok = len(pushes) == 1 and len(built) == 1 and (H.root_local(pushes[0]['args'][0]) or {}).get('hid') in cbind and any(x is pushes[0] for x in walk(built[0]['then']))
         ck.ob('R13.2', 'stored-iff-built', ok, L.loc(pushes[0]) if pushes else L.loc(bp['body']), 'if let Some(c) = CallbackCode::build(..) { callbacks.push(c) }')
     bm = L.fn('uigen::objcode::build_properties_map')
     if bm is not None:
@@ -178,7 +181,8 @@ def run(ck):
                 flat(iff['c'])
                 lb = H.pat_bindings(next(x for x in walk(loop) if x.get('k') == 'LetCond')['pat'])
                 mvar = lb[0]['hid'] if lb else None
-                kn = next((b['bind']['hid'] for b in H.binding_sites(um).values() if b['kind'] == 'let' and b['bind']['name'] == 'known'), None)
+                kn = next((b['bind']['hid'] for b in H.binding_sites(um).values() if b['kind'] == 'let' and b['node'].get('init') is not None and
+                           any(c.get('m') == 'pop' for c in H.calls_in(b['node']['init'])) and not any(x is b['node'] for x in walk(loop))), None)
                 seen = set()
                 for c in cj:
                     t = pp(c, maxlen=160)
@@ -199,8 +203,11 @@ def run(ck):
                 ok = seen == {'kind', 'return', 'prefix'} and len(asg) == 1 and len(rets) == 1
                 why = 'a longer variant replaces the known one iff same kind, same return type and its argument types start with the known ones (%s); otherwise return None' % sorted(seen)
             ck.ob('R13.3', 'collapse-only-default-argument-variants', ok, L.loc(iff) if iff else L.loc(ov), why, fn=um['path'])
-            vals = [pp(v) for v in H.value_exprs(ov['body'])]
-            ck.ob('R13.3', 'longest-variant-wins', vals == ['Some(known)'], L.loc(ov), 'result: %s' % vals)
+            vals = list(H.value_exprs(ov['body']))
+            kn2 = next((b['bind']['hid'] for b in H.binding_sites(um).values() if b['kind'] == 'let' and b['node'].get('init') is not None and
+                        any(c.get('m') == 'pop' for c in H.calls_in(b['node']['init'])) and loop is not None and not any(x is b['node'] for x in walk(loop))), None)
+            ok = len(vals) == 1 and vals[0].get('k') == 'Call' and (vals[0].get('def') or '').endswith('Option::Some') and (H.root_local(vals[0]['args'][0]) or {}).get('hid') == kn2 and kn2 is not None
+            ck.ob('R13.3', 'longest-variant-wins', ok, L.loc(ov), 'result: %s' % [pp(v) for v in vals])
 
     # ---- R13.4 CallbackCode::build ----------------------------------------------------------------------------------------------
     cb = L.fn('uigen::objcode::CallbackCode::build')
@@ -286,15 +293,22 @@ def run(ck):
         # ---- R13.6 ----
         si = init_of('sender')
         gi = init_of('signal')
-        on = next((b for b in bs.values() if b['kind'] == 'param' and b['bind']['name'] == 'obj_node'), None)
-        cc = next((b for b in bs.values() if b['kind'] == 'param' and b['bind']['name'] == 'callback_code'), None)
+        on = next((b for b in bs.values() if b['kind'] == 'param' and 'ObjectNode' in ccb['inputs'][b['index']]), None)
+        cc = next((b for b in bs.values() if b['kind'] == 'param' and 'CallbackCode' in ccb['inputs'][b['index']]), None)
         ok = si is not None and on is not None and any(c.get('m') == 'format_named_object_ref' for c in H.calls_in(si)) and any(x.get('hid') == on['bind']['hid'] for x in walk(si) if x.get('k') == 'Path')
         ck.ob('R13.6', 'sender-is-the-declaring-object', ok, L.loc(si) if si else L.loc(ccb['body']), 'sender = format_named_object_ref(NamedObjectRef(obj_node.name()))')
         ok = gi is not None and cc is not None and H.is_call_to(H.strip_refs(gi), 'format_signal_pointer') and any(c.get('m') == 'desc' and (H.root_local(c['recv']) or {}).get('hid') == cc['bind']['hid'] for c in H.calls_in(gi))
         ck.ob('R13.6', 'signal-is-the-verified-descriptor', ok, L.loc(gi) if gi else L.loc(ccb['body']), 'signal = format_signal_pointer(callback_code.desc())')
         ci = init_of('callback_function_body')
         tr = next((c for c in H.calls_in(ccb['body']) if c.get('m') == 'translate'), None)
-        ok = tr is not None and any(c.get('m') == 'code' for c in H.calls_in(tr['args'][1])) or (tr is not None and (H.root_local(tr['args'][1]) or {}).get('name') == 'code')
+        ok = False
+        if tr is not None and cc is not None:
+            a1 = tr['args'][1]
+            org = [a1]
+            b1 = bs.get((H.root_local(a1) or {}).get('hid'))
+            if b1 is not None and b1['kind'] == 'let' and b1['node'].get('init') is not None:
+                org.append(b1['node']['init'])
+            ok = any(c.get('m') == 'code' and (H.root_local(c['recv']) or {}).get('hid') == cc['bind']['hid'] for o in org for c in H.calls_in(o))
         ck.ob('R13.6', 'body-is-the-handler-code', bool(ok), L.loc(tr) if tr else L.loc(ccb['body']), 'the function body is the translation of callback_code.code()')
     ws = next((f for f in L.fn_list if f['path'].endswith('uigen::binding::CxxCallback::write_setup_function')), None)
     if ws is not None:
@@ -338,17 +352,19 @@ def run(ck):
         ok = lp is not None and re.sub(r'\s', '', it) == 'object_tree.flat_iter().zip(object_code_maps)'
         cbs = next((c for c in H.calls_in(lp['body']) if H.is_call_to(c, 'CxxCallback::build')), None) if lp else None
         if ok and cbs is not None:
-            sp = {b['hid']: b['name'] for b in H.pat_bindings(lp['pat'])}
-            ok = sp.get((H.root_local(cbs['args'][2]) or {}).get('hid')) == 'obj_node'
+            sp = {b['hid']: c02.slot_path(lp['pat'], b['hid']) for b in H.pat_bindings(lp['pat'])}
+            oidx = next((i for i, t in enumerate(ccb['inputs']) if 'ObjectNode' in t), None) if ccb is not None else None
+            ok = oidx is not None and sp.get((H.root_local(cbs['args'][oidx]) or {}).get('hid')) == (0,)
+            cm_hid = next((h for h, p in sp.items() if p == (1,)), None)
             clo = next((a for a in H.ancestors(ub, cbs) if a.get('k') == 'Closure'), None)
             par = H.parents(ub).get(id(clo)) if clo is not None else None
             src = pp(par['recv'], maxlen=200) if par is not None and par.get('k') == 'MCall' else ''
-            ok = ok and 'code_map' in src and 'callbacks()' in src and not any(m.get('m') in LF.FILTERS for m in walk(par['recv']) if m.get('k') == 'MCall')
+            ok = ok and par is not None and (H.root_local(par['recv']) or {}).get('hid') == cm_hid and 'callbacks()' in src and not any(m.get('m') in LF.FILTERS for m in walk(par['recv']) if m.get('k') == 'MCall')
         ck.ob('R13.6', 'callbacks-of-an-object-connect-that-object', ok and cbs is not None, L.loc(lp) if lp else L.loc(ub['body']),
               'for (obj_node, code_map) in object_tree.flat_iter().zip(object_code_maps): every callback of code_map is built with obj_node')
     if gb is not None:
         ck.analysed(gb['path'])
-        ocm = next((b for b in H.binding_sites(gb).values() if b['kind'] == 'let' and b['bind']['name'] == 'object_code_maps'), None)
+        ocm = next((b for b in H.binding_sites(gb).values() if b['kind'] == 'let' and 'Vec<uigen::objcode::ObjectCodeMap' in (L.ty(b['bind']) or '')), None)
         src = ocm['node']['init'] if ocm else None
         # follow one helper call
         if src is not None:
@@ -365,7 +381,8 @@ def run(ck):
         if ok and ub is not None:
             # the tree handed to UiSupportCode::build is the tree the maps were built from
             ubc = next((c for c in H.calls_in(gb['body']) if H.is_call_to(c, 'UiSupportCode::build')), None)
-            tree_same = ubc is not None and any((H.root_local(a) or {}).get('name') == 'object_tree' for a in ubc['args']) and any((H.root_local(a) or {}).get('name') == 'object_code_maps' for a in ubc['args'])
+            tree_local = next((x.get('hid') for x in walk(ocm['node']['init']) if x.get('k') == 'Path' and x.get('res') == 'local' and 'ObjectTree' in (L.ty(x) or '')), None)
+            tree_same = ubc is not None and tree_local is not None and any((H.root_local(a) or {}).get('hid') == tree_local for a in ubc['args']) and any((H.root_local(a) or {}).get('hid') == ocm['bind']['hid'] for a in ubc['args'])
         ck.ob('R13.6', 'code-maps-in-flat-order', ok and tree_same, L.loc(ocm['node']) if ocm else L.loc(gb['body']),
               'object_code_maps = object_tree.flat_iter().map(ObjectCodeMap::build).collect() (%s): one map per object, in the order of the zip partner' % chain)
     import rules.c16 as c16
